@@ -12,6 +12,10 @@ CLAIMS = {
  'C11': dict(cat='other', tech='dominance / path-sensitive who-may-panic census over MIR + lock-closure call census',
    text='Decides R11.1-R11.3: on every path of teardown that has not established thread::panicking()==false the result is Ok and no explicit panic entry (nor a local function reaching one) is called; teardown_panic panics only in the Err arm; Drop::drop has no own panic site; closures run under MutexIsh::locked call only mock-internal std code (no user code under a lock, so no poisoning). A double panic aborts the process and cannot be expressed as a test; as a path rule it is one query.',
    note='Not decided: panics raised by Drop impls of user values lent through make_ref (user code); no crash point is executed. Trusted: rustc MIR, exporter, rule engine, std contract of thread::panicking.'),
+
+ 'C08': dict(cat='other', tech='who-may-panic census over the call graph + must-pass-through (record before panic) via path-sensitive MIR interpretation + append-only census',
+   text='Decides R08.1-R08.5: every explicit panic site reachable from the mocked-call entry points is induce_panic\'s final panic (or the lock-poison unwrap); on every path of induce_panic (lock wrapper and closure inlined) the error parameter itself is pushed to the shared panic_reasons list under the lock before the diverging call; the list is append-only (construction, that push, a full clone on read); teardown returns the recorded errors before reading any counter and teardown_panic / teardown_report render every element; nothing intercepts panics. Holds for every history and thread placement because it is a property of all paths, not of sampled runs.',
+   note='Not decided: thread schedules are not enumerated (the list sits behind MutexIsh, see C10/C11); user-code panics are by construction not recorded. Trusted: rustc MIR, exporter, rule engine, std contracts (Mutex::lock exclusivity, Vec::push/clone).'),
 }
 
 checks = []
